@@ -16,6 +16,9 @@ CLAIMED = {
  "C12": dict(engine="W", cat="fault_enumeration", tech="deterministic simulation with fault injection: schema/template origins served by a scripted transport and the simulated tree with enumerated retrieval faults, x require flag x data kind x placement level x seeded map-iteration schedules; outcome model from the statement",
    text="Generated worlds of 1-3 packages choose per package a template (testify, matryer, file://, http://, https://), a schema location (default <template>.schema.json or explicit template-schema), a schema availability (ok or one of 404/500/transport error/truncated/empty/not JSON/missing file, injected by the simulated transport or tree), require-template-schema-exists (unset/true/false) and template-data of a kind (conforming, empty, missing required, extra key, wrong type, lower-level override) placed at root, package, interface config, configs entry or split across two levels; packages may share a template URL while differing in template-schema (cache history depends on iteration order, so each world runs under asc/desc/random). A small outcome model written from the statement marks each output file reject / accept / open; oracle: rejected files are never written and the run fails; with nothing to reject the run succeeds and every file is written. The open combination (require=false, schema retrievable, non-conforming data) is run and counted, not judged.",
    ref="§4 C12", note="Trusted: the oracle's own evaluator for the flat schema family it generates and for the built-in schemas read from the tree under test; downward merge of flat template-data maps with the lower level winning."),
+ "C18": dict(engine="W", cat="exploration", tech="deterministic simulation: seeded operation histories (init/showconfig/run interleaved with harness mutations of the config path) on a simulated project tree, snapshot after every operation, tree model + differential default check",
+   text="Seeded histories of 2-10 operations on one generated project tree: `mockery init <string>` with any --config target (default, relative, nested, absolute, missing parent) and any package string (real packages and 36 YAML-significant strings, each initialised and loaded back at least twice), showconfig, plain runs, and harness mutations/deletions of the target (empty, hand-written, binary content). Around every operation the whole tree is snapshotted and compared with a tree model: init on a present target changes nothing and fails; on an absent target it creates exactly that file; the file parses as YAML with exactly one package key byte-identical to the argument, is accepted by mockery's own loader with the key unchanged, resolves to the same configuration as the loader's defaults (differential), and for a real package a following plain run generates a mock for every interface.",
+   ref="§4 C18", note="Trusted: 'documented defaults' are taken to be the loader's own defaults (differential showconfig), not the docs table; behaviour for a missing parent directory is only held to all-or-nothing."),
 }
 NA = {
  "C01": "pure (sources, configuration) -> bytes relation with no schedule, clock, fault or carried state; its only order-dependence residue is decided by C06",
